@@ -508,6 +508,65 @@ fn main() {
     }
     let quick = arg_or("--tier", "quick") != "thorough";
     let mut r = Sm64::new(seed_from_env());
+    if flag("--fin") {
+        // C07: every colour difference of two in-range colours is finite - pairs that differ in ONE component by nothing, a
+        // last place, a billionth of the range ... a thousandth (cancellation under a square root is the risk), given
+        // directly in each type's own coordinates, on the bounds and inside
+        let rel = [0.0, 1.2e-16, 6.0e-8, 1.0e-9, 1.0e-7, 1.0e-5, 3.0e-4, 1.0e-3];
+        let fr = if quick { vec![0.0, 1.001e-9, 0.37, 1.0] } else { vec![0.0, 1.001e-9, 1e-3, 0.25, 0.37, 0.5, 0.999, 1.0] };
+        // (type, ranges of the three components; a hue has range None)
+        let tys: [(&str, [Option<(f64, f64)>; 3]); 8] = [
+            ("lab", [Some((0.0, 100.0)), Some((-128.0, 127.0)), Some((-128.0, 127.0))]),
+            ("lch", [Some((0.0, 100.0)), Some((0.0, 128.0)), None]),
+            ("luv", [Some((0.0, 100.0)), Some((-84.0, 176.0)), Some((-135.0, 108.0))]),
+            ("oklab", [Some((0.0, 1.0)), Some((-0.4, 0.4)), Some((-0.4, 0.4))]),
+            ("jab", [Some((0.0, 100.0)), Some((-50.0, 50.0)), Some((-50.0, 50.0))]),
+            ("jmh", [Some((0.0, 100.0)), Some((0.0, 50.0)), None]),
+            ("srgb", [Some((0.0, 1.0)), Some((0.0, 1.0)), Some((0.0, 1.0))]),
+            ("linsrgb", [Some((0.0, 1.0)), Some((0.0, 1.0)), Some((0.0, 1.0))]),
+        ];
+        let hues = [0.0, 90.0, 180.0, 233.0, 359.999];
+        for (ty, rs) in tys.iter() {
+            let mut bases: Vec<[f64; 3]> = vec![];
+            for (i, &f0) in fr.iter().enumerate() {
+                for (j, &f1) in fr.iter().enumerate() {
+                    let f2 = fr[(i + 2 * j + 1) % fr.len()];
+                    let v = |k: usize, f: f64| match rs[k] { Some((lo, hi)) => lo + f * (hi - lo), None => hues[(i * 3 + j) % hues.len()] };
+                    bases.push([v(0, f0), v(1, f1), v(2, f2)]);
+                }
+            }
+            for _ in 0..(if quick { 4 } else { 60 }) {
+                bases.push([0, 1, 2].map(|k| match rs[k] { Some((lo, hi)) => r.range(lo, hi), None => r.range(0.0, 360.0) }));
+            }
+            for a in &bases {
+                for k in 0..3 {
+                    for (di, d) in rel.iter().enumerate() {
+                        if quick && (di + k) % 2 == 1 && *d != 0.0 { continue; }
+                        let mut b = *a;
+                        match rs[k] {
+                            // towards the inside of the range, so that the second colour is in range as well; a value on a bound moves
+                            // by at least a billionth of the range (the statement's domain) or not at all
+                            Some((lo, hi)) => {
+                                let step = (d * (hi - lo)).max(if *d == 0.0 { 0.0 } else if a[k] == lo || a[k] == hi { 1.001e-9 * (hi - lo) } else { 0.0 });
+                                b[k] = if a[k] + step <= hi - 1.001e-9 * (hi - lo) || a[k] + step == hi { a[k] + step } else { a[k] - step };
+                                if b[k] < lo { b[k] = a[k]; }
+                                // relative nudges of the value itself as well (last places)
+                                if *d > 0.0 && *d < 1e-7 && a[k] != lo && a[k] != hi { b[k] = a[k] * (1.0 + d); if b[k] > hi || b[k] < lo { b[k] = a[k]; } }
+                            }
+                            None => b[k] = a[k] + d * 360.0,
+                        }
+                        for t in ["f64", "f32"] {
+                            run(&mut o, t, ty, "fin", a, &b, true);
+                        }
+                    }
+                }
+            }
+        }
+        let (per, panics) = (o.per.clone(), o.panics);
+        let n = o.rec.finish();
+        eprintln!("{}", json!({"events": n, "panics": panics, "per": per}));
+        return;
+    }
     let lab = Dom { lmax: 100.0, abmax: 128.0 };
     let luv = Dom { lmax: 100.0, abmax: 150.0 };
     let okl = Dom { lmax: 1.0, abmax: 0.4 };
